@@ -2,6 +2,7 @@ import VpnCloud.Model.Table
 import VpnCloud.Spec.C11
 import VpnCloud.Spec.TableSpec
 import VpnCloud.Proofs.Lemmas.RangeBits
+import VpnCloud.Proofs.Lemmas.TableLemmas
 /-
   C11 — Routing follows the most specific live claim.  Property theorems.
 -/
@@ -43,5 +44,149 @@ theorem no_u8_overflow (a b : Bytes) (ha : Bytes.WF a) (hb : Bytes.WF b) (hl : a
 example : matchesRef [10, 0, 0, 0] 8 [10, 1, 2, 3] = true := by decide
 example : matchesRef [10, 0, 0, 0] 9 [10, 128, 2, 3] = false := by decide
 example : matchesRef [10, 0, 0, 0] 33 [10, 0, 0, 0] = false := by decide
+
+/-! ### `lookup` -/
+
+section Lookup
+open VpnCloud.Table VpnCloud.Spec VpnCloud.Spec.TableSpec VpnCloud.Proofs.TableLemmas
+
+theorem lookup_hit (t : Table) (now : Int) (a : Addr) (v : CacheEntry)
+    (hc : t.cache.find? (fun v => v.addr = a) = some v) : t.lookup now a = (t, some v.peer) := by
+  simp only [lookup, hc]
+
+theorem lookup_miss_none (t : Table) (now : Int) (a : Addr)
+    (hc : t.cache.find? (fun v => v.addr = a) = none) (hs : scan a t.claims none = none) :
+    t.lookup now a = (t, none) := by
+  simp only [lookup, hc, hs]
+
+theorem lookup_miss_some (t : Table) (now : Int) (a : Addr) (e : ClaimEntry)
+    (hc : t.cache.find? (fun v => v.addr = a) = none) (hs : scan a t.claims none = some e) :
+    t.lookup now a =
+      ({ t with cache := cacheInsert t.cache ⟨a, e.peer, min (now + t.cacheTimeout) e.timeout⟩ },
+        some e.peer) := by
+  simp only [lookup, hc, hs]
+
+/-- the result of a scan from an empty accumulator is an entry of the list that matches -/
+theorem scan_some_mem (a : Addr) (l : List ClaimEntry) (e : ClaimEntry)
+    (hs : scan a l none = some e) : e ∈ l ∧ e.claim.matches a = true := by
+  rcases (scan_some a l none e hs).1 with h | h
+  · exact h
+  · cases h
+
+/-- inserting a decision for an address without cached decision only adds it -/
+theorem cacheInsert_fresh (c : List CacheEntry) (x : CacheEntry)
+    (hc : c.find? (fun v => v.addr = x.addr) = none) : cacheInsert c x = x :: c := by
+  unfold cacheInsert
+  congr 1
+  rw [List.filter_eq_self]
+  intro v hv
+  have := List.find?_eq_none.1 hc v hv
+  simpa using this
+
+/-- one-step specification of lookup holds for the model; `hwf` : all stored ranges and the address are proper byte strings -/
+theorem lookup_spec (t : Table) (now : Int) (a : Addr)
+    (hwf : ∀ e ∈ t.claims, Bytes.WF e.claim.base) (ha : Bytes.WF a) :
+    lookupOk t now a (t.lookup now a).2 (t.lookup now a).1 = true := by
+  have hm : ∀ e ∈ t.claims, e.claim.matches a = matchesRef e.claim.base e.claim.prefixLen a :=
+    fun e he => matches_iff_prefix e.claim a (hwf e he) ha
+  cases hc : t.cache.find? (fun v => v.addr = a) with
+  | some v =>
+    rw [lookup_hit t now a v hc]
+    simp [lookupOk, hc, sameParams, sameSet_refl]
+  | none =>
+    cases hs : scan a t.claims none with
+    | none =>
+      rw [lookup_miss_none t now a hc hs]
+      have hnone := (scan_none a t.claims none hs).2
+      have : matching t a = [] := by
+        unfold matching
+        rw [List.filter_eq_nil_iff]
+        intro e he
+        rw [← hm e he, hnone e he]
+        simp
+      simp [lookupOk, hc, sameParams, sameSet_refl, this]
+    | some e =>
+      rw [lookup_miss_some t now a e hc hs]
+      have ⟨hmem, hmatch⟩ := scan_some_mem a t.claims e hs
+      have hmax := (scan_some a t.claims none e hs).2.1
+      have hems : e ∈ matching t a := by
+        unfold matching
+        rw [List.mem_filter]
+        exact ⟨hmem, by rw [← hm e hmem]; exact hmatch⟩
+      have hmp : maxPrefix (matching t a) = e.claim.prefixLen := by
+        apply maxPrefix_eq _ e hems
+        intro e' he'
+        unfold matching at he'
+        rw [List.mem_filter] at he'
+        exact hmax e' he'.1 (by rw [hm e' he'.1]; exact he'.2)
+      simp only [lookupOk, hc, sameParams, decide_true, Bool.and_self, Bool.true_and,
+        List.any_eq_true, Bool.and_eq_true, decide_eq_true_eq]
+      refine ⟨e, hems, ⟨hmp.symm, rfl⟩, ?_⟩
+      rw [cacheInsert_fresh _ _ hc]
+      exact sameSet_refl _
+
+/-- Prop form: with no cached decision the selected peer announced a longest-prefix claim containing the address;
+    `none` iff no claim contains it -/
+theorem lookup_most_specific (t : Table) (now : Int) (a : Addr)
+    (hwf : ∀ e ∈ t.claims, Bytes.WF e.claim.base) (ha : Bytes.WF a)
+    (hc : t.cache.find? (fun v => v.addr = a) = none) :
+    match (t.lookup now a).2 with
+    | some q => ∃ e ∈ t.claims, e.peer = q ∧ matchesRef e.claim.base e.claim.prefixLen a = true ∧
+        ∀ e' ∈ t.claims, matchesRef e'.claim.base e'.claim.prefixLen a = true → e'.claim.prefixLen ≤ e.claim.prefixLen
+    | none => ∀ e ∈ t.claims, matchesRef e.claim.base e.claim.prefixLen a = false := by
+  have hm : ∀ e ∈ t.claims, e.claim.matches a = matchesRef e.claim.base e.claim.prefixLen a :=
+    fun e he => matches_iff_prefix e.claim a (hwf e he) ha
+  cases hs : scan a t.claims none with
+  | none =>
+    rw [lookup_miss_none t now a hc hs]
+    intro e he
+    rw [← hm e he]
+    exact (scan_none a t.claims none hs).2 e he
+  | some e =>
+    rw [lookup_miss_some t now a e hc hs]
+    have ⟨hmem, hmatch⟩ := scan_some_mem a t.claims e hs
+    refine ⟨e, hmem, rfl, by rw [← hm e hmem]; exact hmatch, ?_⟩
+    intro e' he' hm'
+    exact (scan_some a t.claims none e hs).2.1 e' he' (by rw [hm e' he']; exact hm')
+
+/-- a decision cached by a lookup lives no longer than the switch timeout and no longer than the claim it came from -/
+theorem cache_lifetime (t : Table) (now : Int) (a : Addr) :
+    ∀ v ∈ (t.lookup now a).1.cache, v ∉ t.cache →
+      v.addr = a ∧ v.timeout ≤ now + t.cacheTimeout ∧ ∃ e ∈ t.claims, e.peer = v.peer ∧ v.timeout ≤ e.timeout := by
+  intro v hv hnew
+  cases hc : t.cache.find? (fun v => v.addr = a) with
+  | some w =>
+    rw [lookup_hit t now a w hc] at hv
+    exact absurd hv hnew
+  | none =>
+    cases hs : scan a t.claims none with
+    | none =>
+      rw [lookup_miss_none t now a hc hs] at hv
+      exact absurd hv hnew
+    | some e =>
+      rw [lookup_miss_some t now a e hc hs] at hv
+      simp only [cacheInsert, List.mem_cons, List.mem_filter] at hv
+      rcases hv with rfl | hv
+      · refine ⟨rfl, ?_, e, (scan_some_mem a t.claims e hs).1, rfl, ?_⟩
+        · exact Int.min_le_left _ _
+        · exact Int.min_le_right _ _
+      · exact absurd hv.1 hnew
+
+/-- the hypotheses of `lookup_spec` / `lookup_most_specific` hold on a concrete table (two peers, three claims) and an
+    address without cached decision; the lookup selects the /16 of peer 2 over the /8 of peer 1 and caches that decision
+    for the switch timeout -/
+example : (∀ e ∈ exTable.claims, Bytes.WF e.claim.base) ∧ Bytes.WF [10, 1, 2, 3] ∧
+    exTable.cache.find? (fun v => v.addr = [10, 1, 2, 3]) = none ∧
+    (exTable.lookup 100 [10, 1, 2, 3]).2 = some 2 ∧
+    (exTable.lookup 100 [10, 1, 2, 3]).1.cache = ⟨[10, 1, 2, 3], 2, 400⟩ :: exTable.cache ∧
+    lookupOk exTable 100 [10, 1, 2, 3] (exTable.lookup 100 [10, 1, 2, 3]).2 (exTable.lookup 100 [10, 1, 2, 3]).1 = true := by
+  decide
+
+/-- a cached decision wins over the claims; an address outside every claim has no next hop -/
+example : (exTable.lookup 100 [10, 2, 0, 1]).2 = some 1 ∧ (exTable.lookup 100 [11, 0, 0, 1]).2 = none ∧
+    (exTable.lookup 100 [10, 0, 0]).2 = none := by
+  decide
+
+end Lookup
 
 end VpnCloud.Proofs.C11
